@@ -95,6 +95,24 @@ func resolveListForm(th bool) []string {
 	return ts
 }
 
+// resolveArgs34: every parameterized type name x every argument list of three arguments over one literal per kind
+// (string, quoted string, integer, boolean, type, default, list, regexp) and of four over four kinds: the creators
+// that take sizes, ranges, return/block types or patterns after their first arguments, and their error paths.
+func resolveArgs34(th bool) []string {
+	var ts []string
+	k3 := []string{"a", "'b'", "1", "true", "Integer", "default", "[c]", "/x/"}
+	k4 := []string{"a", "1", "Integer", "default"}
+	if th {
+		k4 = []string{"a", "1", "Integer", "default", "true", "[c]"}
+	}
+	for _, tn := range parameterizedNames() {
+		wordsOverSepExact(k3, 3, func(w []string) { ts = append(ts, tn+"["+strings.Join(w, ", ")+"]") })
+		wordsOverSepExact(k4, 4, func(w []string) { ts = append(ts, tn+"["+strings.Join(w, ", ")+"]") })
+		wordsOverSepExact([]string{"Integer", "1"}, 5, func(w []string) { ts = append(ts, tn+"["+strings.Join(w, ", ")+"]") })
+	}
+	return ts
+}
+
 // deferredPool: the special form Deferred(...) and call forms as they reach deferred.Resolve (types/deferred.go:113):
 // empty name, variable names (with and without a name after the '$', with something to dig), unknown function,
 // `new` with good / bad / missing arguments, nested.
@@ -115,6 +133,31 @@ func resolveDeferred() []string {
 			}
 		}
 	}
+	return ts
+}
+
+// resolveEnumArgs: the creator that coq/Model/Resolve.v models, bounded-exhaustively: every argument list up to four
+// arguments over a string (bare and quoted, upper case for the case-insensitive flag), both flags, the array form
+// (two elements, empty, nested), and a value of another kind.
+func resolveEnumArgs(th bool) []string {
+	var ts []string
+	alpha := []string{"a", "'B'", "true", "false", "[a, 'C']", "[]", "1", "[[d]]"}
+	n := 4
+	if th {
+		n = 5
+	}
+	wordsOverSep(alpha, n, func(w []string) { ts = append(ts, "Enum["+strings.Join(w, ", ")+"]") })
+	ts = append(ts, "Enum[[a, b, c, d, e, f, g, h], i, j, k, true]", "Enum[[[[[a, b]]]]]", "Enum[[[a, b], c]]", "Enum[['É', 'ß'], 'Σ', true]", "Enum[[], true]", "Enum[[], a, b]")
+	return ts
+}
+
+// resolveDeferredNames: every name over a small alphabet ('$', a letter, a multi-byte letter, a space, a digit) up to
+// three characters, alone and with an argument: the name test of deferred.Resolve (types/deferred.go:119).
+func resolveDeferredNames() []string {
+	var ts []string
+	wordsOver([]string{"$", "x", "é", " ", "0"}, 3, func(w string) {
+		ts = append(ts, "Array[Deferred('"+w+"')]", "Array[Deferred('"+w+"', 0)]", "Integer[Deferred(\""+w+"\", 'a', [1])]", "Foo[Deferred('"+w+"')]")
+	})
 	return ts
 }
 
